@@ -50,6 +50,7 @@ def run(ctx):
     rule_conjunction(ctx)
     rule_optimiser(ctx)
     rule_all_answers_filtered(ctx)
+    rule_filters_only_grow(ctx)
 
 
 def _op_chain(fi):
@@ -415,6 +416,60 @@ def rule_optimiser(ctx):
               file=rel, line=q.node.lineno, function="FileSystemSource.query", expected="same `query` passed down and applied by "
               "apply_common_filters in _check_object_from_file", found=found)
     run.floor(R, 10)
+
+
+def rule_filters_only_grow(ctx):
+    """The filter set a source evaluates is a PRIVATE FilterSet seeded with the caller's query, to which the attached and
+    the composite filters are added -- and nothing is ever taken out or replaced on the way to the per-object predicate.
+    A "simplification" that drops filters already used for a shortcut (directory selection) drops their other operators
+    too; re-using the caller's FilterSet object leaks this source's filters into the caller's next query."""
+    from ..cfg import ReachingDefs
+    run = ctx.run
+    prog = ctx.prog
+    R = "C12.filters-only-grow"
+    sinks = ("apply_common_filters", "_search_versioned", "_search_unversioned")
+    n = 0
+    for fid in (MEM + "::MemorySource.query", FS + "::FileSystemSource.query"):
+        fi = prog.func(fid)
+        rel = fi.module.relpath
+        g = cfg_of(fi)
+        rd = ReachingDefs(g, fi.all_param_names())
+        qparam = [p_ for p_ in fi.params if p_ != "self"][0]
+        for call in [c for c in body_walk(fi.node) if isinstance(c, ast.Call) and call_simple_name(c) in sinks]:
+            tgt = prog.deref(prog.resolve_expr(fi.scope, call.func))
+            if not isinstance(tgt, FunctionInfo):
+                continue
+            # which argument is the filter set: the callee parameter named query
+            pos = tgt.params.index("query") if "query" in tgt.params else None
+            arg = None
+            if pos is not None and pos < len(call.args):
+                arg = call.args[pos]
+            for k in call.keywords:
+                if k.arg == "query":
+                    arg = k.value
+            if not isinstance(arg, ast.Name):
+                raise AnalysisError("%s: the filter set passed to %s is not a local name" % (fi.qualname, tgt.name))
+            n += 1
+            st = call
+            while not isinstance(st, ast.stmt):
+                st = st.parent
+            defs = rd.reaching(g.node_of(st), arg.id)
+            problems = []
+            for dn, v in defs:
+                fresh = isinstance(v, ast.Call) and call_simple_name(v) == "FilterSet" and (
+                    not v.args or norm(v.args[0]) == qparam)
+                if not fresh:
+                    problems.append("line %s: %s" % (getattr(dn.ast, "lineno", "?"), short(dn.ast) if dn.ast is not None else "the caller's own object (parameter)"))
+            shrink = [x for x in body_walk(fi.node) if isinstance(x, ast.Call) and isinstance(x.func, ast.Attribute)
+                      and norm(x.func.value) == arg.id and x.func.attr in ("remove", "discard", "pop", "clear", "difference_update")]
+            problems += ["line %d: %s" % (x.lineno, short(x)) for x in shrink]
+            run.check(not problems, R, key(rel, fi.qualname, "->%s:%s" % (tgt.name, arg.id)),
+                      "the filter set evaluated per object is not the private FilterSet(query) grown by add(): filters are "
+                      "dropped or replaced on the way (their remaining operators are then never evaluated), or the caller's "
+                      "own FilterSet is modified", file=rel, line=call.lineno, function=fi.qualname,
+                      expected="%s = FilterSet(%s); %s.add(...) only" % (arg.id, qparam, arg.id), found=problems)
+    if n < 3:
+        raise AnalysisError("query methods: fewer than 3 filter-evaluating calls found (%d)" % n)
 
 
 def rule_all_answers_filtered(ctx):
